@@ -3,9 +3,16 @@ import os, sys
 from . import core
 
 
+TRANSLATORS = [("election", "Election.lean")]
+
+
 def main():
     os.makedirs(core.WORK, exist_ok=True)
     log = open(os.path.join(core.WORK, "setup.log"), "w")
+    # regenerate the translator outputs first so that the project builds against /repo's current tree
+    for name, gen in TRANSLATORS:
+        ok, msg = core.run_translator(name, gen, log)
+        print(f"setup: translator {name}: {msg if ok else 'FAILED ' + msg}")
     rc, out = core.lake_build([], log)
     print(out[-1500:])
     if rc != 0:
